@@ -14,7 +14,7 @@ and pandas is a machinery error, never a violation.
 
 Floats: dask's float results are converted with fractions.Fraction and replaced by the rational with a small
 denominator next to them when they are within 2^-40 * n * max(1, |x|) of it (n = number of rows; std and sem
-are squared first) - equality of exact rationals then decides - and flagged `close = false` otherwise."""
+are squared first, corr is squared with its sign kept) - equality of exact rationals then decides - and flagged `close = false` otherwise."""
 from __future__ import annotations
 
 import math
@@ -36,15 +36,16 @@ META = {
     "level_text": "Small-scope: for seeded fills of frames with <= 6 rows x <= 3 numeric columns over {0,1,2,NA} (int and float "
                   "columns, all-NA columns, duplicate / unsorted index labels, an optional non-numeric column for numeric_only), "
                   "TLC computes sum prod min max count any all (skipna, min_count), mean var std sem (ddof), idxmin idxmax, "
-                  "nunique, value_counts (dropna, normalize, sort/ascending), mode, nlargest nsmallest and len for the frame "
+                  "nunique, value_counts (dropna, normalize, sort/ascending), mode, nlargest nsmallest, cov corr, the exact rows of "
+                  "describe (count mean std min max) and len for the frame "
                   "(axis 0 and 1) and its first column; dask is replayed on all row partitionings with <= 4 parts (empty "
                   "partitions included; quick: a seeded sample of (case, partitioning) pairs) x split_every in {2,3,False,None}, "
                   "built with from_delayed or from_pandas. Random larger frames are decided by TLC from recorded calls.",
     "level_note": "Trusted: TLC, the TLA+ reference (cross-checked against pandas on every case; a disagreement is a machinery "
                   "error, not a violation), harness.frames.from_parts, the projection of results (kind, index, values), Fraction "
                   "conversion of floats with tolerance 2^-40*n*max(1,|x|). Fills are seeded samples (not all 4^n fills). Result "
-                  "dtypes are not compared (C42). describe, cov/corr, quantiles, nullable extension dtypes and multi-column "
-                  "nlargest are outside this check.",
+                  "dtypes are not compared (C42). The percentile rows of describe, quantiles, nullable extension dtypes, "
+                  "min_periods of cov/corr and multi-column nlargest are outside this check.",
 }
 
 NA = 99
@@ -117,6 +118,12 @@ def apply_op(x, case, variant, is_dask):
         return getattr(tgt, op)(p, **kw)
     if fam == "len":
         return len(tgt)
+    if fam == "cov":
+        if frame:
+            return getattr(tgt, op)(**kw)
+        return getattr(tgt, op)(x[case["cols"][1]], **kw)
+    if fam == "desc":
+        return tgt.describe(**kw)
     raise MachineryError("unknown family %r" % fam)
 
 
@@ -158,15 +165,18 @@ def tolerance(nrows, e):
     return Fraction(max(1, nrows), 2 ** 40) * max(1, abs(e))
 
 
-def val_rat(v, nrows, squared):
-    """-> ([num, den], close)"""
+def val_rat(v, nrows, squared, signed=False):
+    """-> ([num, den], close); squared: the square is logged (signed: with the sign of the value kept)"""
     v = _plain(v)
     if v is None:
         return [0, 0], True
     if isinstance(v, bool) or not isinstance(v, (int, float)) or (isinstance(v, float) and math.isinf(v)):
         return [0, 1], False
     fr = Fraction(v)
-    if squared:
+    if signed:
+        fr = fr * fr * (-1 if fr < 0 else 1)
+        squared = True
+    elif squared:
         if fr < 0:
             return [0, 1], False
         fr = fr * fr
@@ -196,14 +206,14 @@ def project(case, res):
     nrows = len(case["rows"])
     cols = list(case["cols"])
     colpos = {c: i for i, c in enumerate(cols)}
-    ratv = fam == "rat" or (fam == "vc" and case["fl"])
+    ratv = fam in ("rat", "cov", "desc") or (fam == "vc" and case["fl"])
     sq = op in SQUARED
     close = True
 
-    def value(v):
+    def value(v, squared=None):
         nonlocal close
         if ratv:
-            r, ok = val_rat(v, nrows, sq)
+            r, ok = val_rat(v, nrows, sq if squared is None else squared, signed=(op == "corr"))
         elif fam == "idx" and case["ax"] == 1 and case["tgt"] == "frame":
             r, ok = colpos.get(_plain(v), UNKNOWN), True
         else:
@@ -212,8 +222,19 @@ def project(case, res):
         return r
 
     obs = {"raised": "", "k": "other", "ix": [], "v": [], "close": True, "ord": []}
+    DESC = ["count", "mean", "std", "min", "max"]
     if isinstance(res, pd.DataFrame):
-        if fam == "mode":
+        if fam == "cov":
+            obs["k"] = "matrix"
+            obs["ix"] = [colpos.get(c, UNKNOWN) for c in res.columns]
+            if [colpos.get(c, UNKNOWN) for c in res.index] != obs["ix"]:
+                obs["ix"] = [UNKNOWN]
+            obs["v"] = [value(v) for row in res.itertuples(index=False, name=None) for v in row]
+        elif fam == "desc" and all(lab in res.index for lab in DESC):
+            obs["k"] = "table"
+            obs["ix"] = [colpos.get(c, UNKNOWN) for c in res.columns]
+            obs["v"] = [value(v, squared=(lab == "std")) for lab in DESC for v in res.loc[lab].tolist()]
+        elif fam == "mode":
             obs["k"] = "table"
             obs["ix"] = [colpos.get(c, UNKNOWN) for c in res.columns]
             obs["v"] = [value(v) for row in res.itertuples(index=False, name=None) for v in row]
@@ -239,6 +260,9 @@ def project(case, res):
         elif fam == "mode":
             obs["k"] = "list"
             obs["v"] = [value(v) for _k, v in items]
+        elif fam == "desc" and all(lab in res.index for lab in DESC):
+            obs["k"] = "list"
+            obs["v"] = [value(res[lab], squared=(lab == "std")) for lab in DESC]
         elif fam in ("fold", "rat", "idx", "nuniq") and case["tgt"] == "frame" and case["ax"] == 0:
             obs["k"] = "cols"
             obs["ix"] = [colpos.get(k, UNKNOWN) for k, _v in items]
@@ -311,10 +335,23 @@ def run_dask(case, layout, variant):
             warnings.simplefilter("ignore")
             with time_limit(30):
                 x = build(case, layout, variant["src"])
-                y = apply_op(x, case, variant, True)
-                if hasattr(y, "compute"):
-                    y = y.compute(scheduler="sync")
-        return project(case, y)
+                actual = list(layout)
+                if variant["src"] == "pandas":          # from_pandas chooses its own partitioning: the one that was really used
+                    actual = [int(k) for k in x.map_partitions(len).compute(scheduler="sync")]
+                try:
+                    y = apply_op(x, case, variant, True)
+                    if hasattr(y, "compute"):
+                        y = y.compute(scheduler="sync")
+                except NotImplementedError:
+                    raise
+                except Exception as ex:  # noqa: BLE001 - an exception of the operation is an observation
+                    if is_shim_error(ex) or isinstance(ex, CallTimeout):
+                        raise
+                    return {"raised": type(ex).__name__, "msg": str(ex)[:160], "k": "", "ix": [], "v": [], "close": True, "ord": [],
+                            "layout": actual}
+        obs = project(case, y)
+        obs["layout"] = actual
+        return obs
     except NotImplementedError as ex:
         return {"skip": "NotImplementedError: " + str(ex)[:60]}
     except CallTimeout as ex:
@@ -327,7 +364,7 @@ def run_dask(case, layout, variant):
 
 def lanes_of(case):
     """The lanes (cell sequences along axis 0) the operation looks at."""
-    cols = case["cols"] if case["tgt"] == "frame" and case["fam"] != "vc" and case["fam"] != "top" else case["cols"][:1]
+    cols = case["cols"] if case["tgt"] == "frame" and case["fam"] not in ("vc", "top") else case["cols"][:2 if case["fam"] == "cov" else 1]
     return [[r[c] for r in case["rows"]] for c in cols]
 
 
@@ -361,8 +398,14 @@ def classify(case, layout, clause, variant):
     ax1 = case["tgt"] == "frame" and case["ax"] == 1
     site = {"idxmin": "idx", "idxmax": "idx", "min": "minmax", "max": "minmax", "sum": "sumprod", "prod": "sumprod",
             "var": "var", "std": "var", "sem": "var", "nlargest": "top", "nsmallest": "top"}.get(op, op)
-    if fam == "idx" and not ax1 and clause == "UnexpectedRaise" and case["sk"] and ("allna-partition" in feats or "empty-partition" in feats):
-        return "idx:axis0:partition-without-valid-value:raises"
+    if fam == "idx" and not ax1 and clause == "UnexpectedRaise" and case["sk"] and "allna-partition" in feats:
+        return "idx:axis0:allna-partition:raises"
+    if fam == "rat" and site == "var" and not ax1 and clause == "Content" and case["p"] >= 2:
+        counts = [len([v for v in lane if v != NA]) for lane in lanes_of(case) if case["sk"] or NA not in lane]
+        if case["p"] in counts:
+            return "var:axis0:count==ddof"
+    if fam == "fold" and site == "minmax" and not ax1 and not case["sk"] and clause == "Content" and "empty-partition" in feats:
+        return "minmax:axis0:skipna=False:empty-partition"
     parts = [fam, site, "axis1" if ax1 else case["tgt"], clause]
     if fam in ("fold", "rat", "idx"):
         parts.append("skipna=%s" % case["sk"])
@@ -445,7 +488,7 @@ def make_fills(ctx):
     return fills
 
 
-INVARIANTS = ["ShapeOK", "FoldDecomposes", "MeanDecomposes", "VarDecomposes", "IdxDecomposes", "IdxRaisesIff", "VCDecomposes",
+INVARIANTS = ["ShapeOK", "CovSane", "CovDecomposes", "DescribeAgrees", "FoldDecomposes", "MeanDecomposes", "VarDecomposes", "IdxDecomposes", "IdxRaisesIff", "VCDecomposes",
               "VCNormalized", "TopDecomposes", "CountPlusNA", "MeanWithin", "VarNonNeg", "SemIsVarOverN", "RowwiseOfOneColumn"]
 
 
@@ -492,6 +535,7 @@ def replay_cases(ctx, items, on_violation=None):
             ctx.count((case, layout, variant), nontrivial)
             if cl:
                 nviol += 1
+                layout = (detail or {}).get("layout", layout)        # the partitioning really used (from_pandas picks its own)
                 sig = classify(case, layout, cl, variant)
                 if on_violation:
                     on_violation(sig, cl, case, layout, variant)
@@ -520,7 +564,7 @@ def random_case(rng):
             if r[c] != NA and rng.random() < 0.3:
                 r[c] = 3
         r["idx"] = rng.randint(0, 5)
-    fam = rng.choice(["fold"] * 5 + ["rat"] * 4 + ["idx"] * 3 + ["nuniq", "vc", "vc", "mode", "top", "top", "len"])
+    fam = rng.choice(["fold"] * 5 + ["rat"] * 4 + ["idx"] * 3 + ["nuniq", "vc", "vc", "mode", "top", "top", "len", "cov", "cov", "desc"])
     scol = f["scol"]
     tgts = [("frame", 0), ("frame", 1)] + ([] if scol else [("series", 0)])
     case = dict(f, fam=fam, op=fam, tgt="frame", ax=0, sk=True, fl=False, p=0)
@@ -552,6 +596,12 @@ def random_case(rng):
     elif fam == "top":
         case["scol"] = False
         case.update(op=rng.choice(["nlargest", "nsmallest"]), tgt=rng.choice(["frame", "series"]), p=rng.choice([1, 2, 3, 5, 20]))
+    elif fam == "cov":
+        case["scol"] = False
+        case.update(op=rng.choice(["cov", "corr"]), tgt=rng.choice(["frame", "series"] if nc >= 2 else ["frame"]))
+    elif fam == "desc":
+        case["scol"] = False
+        case.update(op="describe", tgt=rng.choice(["frame", "series"]))
     else:
         case.update(op="len", tgt=rng.choice(["frame"] if scol else ["frame", "series"]))
     case["layout"] = random_layout(rng, n)
@@ -570,9 +620,10 @@ def _record(item):
     obs = run_dask(case, case["layout"], case["variant"])
     if "skip" in obs:
         return None
-    obs = {k: v for k, v in obs.items() if k != "msg"}
+    actual = obs.get("layout", case["layout"])
+    obs = {k: v for k, v in obs.items() if k not in ("msg", "layout")}
     rec = {k: case[k] for k in REC_CASE_FIELDS}
-    rec.update(id="r%d" % i, obs=obs, layout=case["layout"], kinds=case["kinds"],
+    rec.update(id="r%d" % i, obs=obs, layout=actual, asked=case["layout"], kinds=case["kinds"],
                variant={k: str(v) for k, v in case["variant"].items()})
     return rec
 
@@ -634,7 +685,7 @@ def run(ctx):
     fills = make_fills(ctx)
     cases, layouts, _ = enumerate_cases(ctx, fills, designparts=ctx.pick(3, 4), ddofs=ctx.pick("{0, 1}", "{0, 1, 2}"),
                                         mincounts=ctx.pick("{0, 2}", "{0, 1, 3}"))
-    items, total_pairs, sampled = pair_items(ctx, cases, layouts, ctx.pick(4200, 110000), thorough)
+    items, total_pairs, sampled = pair_items(ctx, cases, layouts, ctx.pick(4200, 50000), thorough)
     replay_cases(ctx, items)
     for fam in ("fold", "rat", "idx", "vc", "top"):
         for it in items:
@@ -642,7 +693,7 @@ def run(ctx):
                 ctx.sample({"case": it[0], "layout": it[2], "expected": it[1]})
                 break
     # code -> spec
-    nrec = ctx.pick(700, 9000)
+    nrec = ctx.pick(700, 6000)
     recs = [r for r in pmap(_record, [(i, random_case(ctx.rng)) for i in range(nrec)], chunk=24) if r is not None]
     validate_records(ctx, recs)
     ctx.exhaustive = not sampled
@@ -666,7 +717,7 @@ def replay(ctx, obj):
     if "record" in c:
         r = c["record"]
         case = case_of_record(r)
-        case.update(layout=r["layout"], variant=variant_of_record(r))
+        case.update(layout=r.get("asked", r["layout"]), variant=variant_of_record(r))
         rec = _record((int(r["id"][1:]), case))
         spec, cfg = ctx.model(ctx.spec("frame", "FrameReductionsTrace.tla"), {})
         rej = ctx.tlc_validate(spec, [rec], cfg)
@@ -677,3 +728,121 @@ def replay(ctx, obj):
     cl = judge(case, exp, obs)
     print("case:", case, "\nlayout:", layout, "variant:", variant, "\nexpected:", exp, "\nobserved:", obs, "\nclause:", cl)
     return cl is not None
+
+
+# ----------------------------------------------------------------------------- selftest
+def selftest(ctx):
+    """Binding demonstration: in-memory mutants of the anchored dask functions must be reported on a small case
+    set (and the unmutated code must not be, beyond the known findings); corrupted recorded fields must be
+    rejected by the trace specification."""
+    import copy
+    from ..divisions import mutate, patched_attr as patched
+    dd()
+    import dask.dataframe.core as dcore
+    import dask.dataframe.dask_expr._collection as coll
+    import dask.dataframe.dask_expr._reductions as red
+    import dask.dataframe.methods as methods
+    rng = ctx.rng
+    fills = [gen_fill(rng, 5, 2, special="nona"), gen_fill(rng, 6, 1, na_p=0.2), gen_fill(rng, 4, 3, na_p=0.2)]
+    for f in fills:                       # distinct values so that a wrong partition / branch shows
+        for i, r in enumerate(f["rows"]):
+            r["idx"] = i
+    cases, layouts, _ = enumerate_cases(ctx, fills, label="selftest cases", designparts=2)
+    known = set(ctx.known)
+
+    def items_for(pred, limit=60):
+        pairs = [(c, lay) for c in cases if pred(c["c"]) for lay in layouts[len(c["c"]["rows"])] if len(lay) >= 3 and 0 not in lay]
+        pairs = rng.sample(pairs, min(limit, len(pairs)))
+        return [(c["c"], c["e"], lay, [{"se": se, "src": "parts", "so": 1} for se in (2, False)]) for c, lay in pairs]
+
+    def new_violations(items):
+        found = []
+        replay_cases(ctx, items, on_violation=lambda sig, cl, case, lay, v: found.append((sig, cl)))
+        return [f for f in found if f[0] not in known]
+
+    mutants = [
+        ("TreeReduce._layer: batches built with toolz.partition (drops the incomplete last batch) instead of partition_all",
+         [red.TreeReduce], "_layer", mutate(vars(red.TreeReduce)["_layer"], "toolz.partition_all(", "toolz.partition("),
+         lambda c: c["fam"] in ("fold", "rat", "top") and c["ax"] == 0 and c["p"] in (0, 1, 7)),
+        ("idxmaxmin_chunk: the partition's candidate value is the opposite extreme (wrong operand)",
+         [red.IdxMin], "reduction_chunk", mutate(dcore.idxmaxmin_chunk, '"max" if fn == "idxmax" else "min"', '"min" if fn == "idxmax" else "max"'),
+         lambda c: c["fam"] == "idx" and c["ax"] == 0 and c["sk"]),
+        ("Var.reduction_aggregate: ddof dropped from the divisor under skipna",
+         [red.Var], "reduction_aggregate", mutate(vars(red.Var)["reduction_aggregate"], "sum=np.nansum, ddof=ddof", "sum=np.nansum, ddof=0"),
+         lambda c: c["fam"] == "rat" and c["op"] in ("var", "std", "sem") and c["p"] == 1 and c["sk"] and c["ax"] == 0),
+        ("_apply_min_count: boundary off by one (>= min_count -> > min_count)",
+         [coll.FrameBase], "_apply_min_count", mutate(vars(coll.FrameBase)["_apply_min_count"], "self.notnull().sum() >= min_count", "self.notnull().sum() > min_count"),
+         lambda c: c["fam"] == "fold" and c["op"] in ("sum", "prod") and c["p"] == 2 and c["ax"] == 0),
+        ("value_counts_aggregate: normalizes by the number of distinct values instead of the total",
+         [red.ValueCounts], "reduction_aggregate", mutate(methods.value_counts_aggregate, "else out.sum()", "else len(out)"),
+         lambda c: c["fam"] == "vc"),
+        ("_cov_corr_combine: pairwise update uses the next partition's count for both sides (n1 = counts[1:])",
+         [red.Cov], "reduction_combine", staticmethod(mutate(dcore._cov_corr_combine, "n1 = cum_counts[:-1]", "n1 = counts[1:]")),
+         lambda c: c["fam"] == "cov"),
+        ("_mode_aggregate: compares with the smallest instead of the largest count",
+         [red.Mode], "reduction_aggregate", staticmethod(mutate(dcore._mode_aggregate, "value_count_series.max(skipna=dropna)", "value_count_series.min(skipna=dropna)")),
+         lambda c: c["fam"] == "mode"),
+    ]
+    ok = True
+    for what, targets, attr, mut, pred in mutants:
+        items = items_for(pred)
+        base = new_violations(items)
+        with patched(targets, attr, mut):
+            got = new_violations(items)
+        good = not base and len(got) > 0
+        ok = ok and good
+        print("selftest C37 mutant [%s]: %s (%d evaluations of %d cases flagged, e.g. %s; unmutated: %d)"
+              % (what, "DETECTED" if good else "MISSED", len(got), len(items), got[0][0] if got else "-", len(base)))
+    # (ii) corrupted recorded fields are rejected by the trace specification
+    recs, i = [], 0
+    while len(recs) < 40 and i < 400:
+        case = random_case(rng)
+        i += 1
+        if 0 in case["layout"]:
+            continue
+        r = _record((i, case))
+        if r is not None and r["obs"]["raised"] == "" and len(r["obs"]["v"]) >= 1 and r["obs"]["close"]:
+            recs.append(r)
+    corrupt = []
+    for j, r in enumerate(recs):
+        c = copy.deepcopy(r)
+        kind = j % 4
+        o = c["obs"]
+        if kind == 0:          # one value of the recorded result changed
+            cell = o["v"][-1]
+            o["v"][-1] = [cell[0] + 1, max(1, cell[1])] if isinstance(cell, list) else (cell + 1 if cell != NA else 0)
+            c["want"] = "Content"
+        elif kind == 1:        # an entry of the result was lost
+            if o["k"] in ("scalar", "list") or not o["ix"]:
+                o["k"] = "rows" if o["k"] != "rows" else "cols"
+                c["want"] = "Kind"
+            else:
+                o["ix"] = o["ix"][:-1]
+                c["want"] = "Index"
+        elif kind == 2:        # the kind of result changed
+            o["k"] = "cols" if o["k"] != "cols" else "rows"
+            c["want"] = "Kind"
+        else:                  # the float was not within tolerance of the expected rational / an index label changed
+            if o["ix"]:
+                o["ix"][0] = o["ix"][0] + 1
+                c["want"] = "Index"
+            else:
+                o["close"] = False
+                c["want"] = "Content"
+        c["id"] = "x" + r["id"]
+        corrupt.append(c)
+    spec, cfg = ctx.model(ctx.spec("frame", "FrameReductionsTrace.tla"), {})
+    rej = ctx.tlc_validate(spec, recs + corrupt, cfg)         # one TLC run decides originals and corrupted copies
+    rej0 = {k: v for k, v in rej.items() if not k.startswith("x")}
+    known_rej = {k for k in rej0 if classify(case_of_record(next(r for r in recs if r["id"] == k)), next(r for r in recs if r["id"] == k)["layout"],
+                                             rej0[k][0].strip('{}" ').split('"')[0], {}) in known}
+    clean = [r for r in recs if r["id"] not in rej0]
+    corrupt = [c for c in corrupt if c["id"][1:] not in rej0]
+    missed = [c["id"] for c in corrupt if c["id"] not in rej or c["want"] not in rej[c["id"]][0]]
+    good = bool(clean) and not missed and len(set(rej0) - known_rej) == 0
+    ok = ok and good
+    print("selftest C37 trace: %d recorded calls accepted (%d rejected before corruption, %d of them known findings); %d corrupted copies "
+          "(value / lost entry / kind / label) -> %d rejected with the expected clause: %s"
+          % (len(clean), len(rej0), len(known_rej), len(corrupt), len(corrupt) - len(missed), "DETECTED" if good else "MISSED %r" % missed[:3]))
+    print("C37 selftest: %s" % ("ok" if ok else "FAILED"))
+    return 0 if ok else 1
